@@ -125,10 +125,42 @@ def subtree_map(prog):
     return prog._subtree
 
 
+KEYWORDS = {"falco-ignore-next-line": "next-line", "falco-ignore": "this-line", "falco-ignore-start": "start", "falco-ignore-end": "end"}
+
+
+def py_parse(comment):
+    """what a comment means as a directive: (kind, [rules]) or None - the reading the linter documents: optional comment
+    marker, blanks and '@', the keyword, a blank, a comma separated rule list; used by the oracle, independent of model and linter"""
+    c = comment.strip()
+    body = c.lstrip("#@*/ ")
+    if c.startswith("/*") and body.endswith("*/"):
+        body = body[:-2]
+    word, _, rest = body.partition(" ")
+    if word not in KEYWORDS:
+        return None
+    return KEYWORDS[word], [r.strip() for r in rest.split(",") if r.strip()]
+
+
+HOSTILE = [
+    lambda k, rs: "#" + k + (" " + ",".join(rs) if rs else ""),                    # no blank after the marker
+    lambda k, rs: "#### " + k + (" " + " ,, ".join(rs) + " ,," if rs else ""),     # repeated markers, empty items
+    lambda k, rs: "# @" + k + (" " + ", ".join(rs + rs) if rs else ""),            # annotation style, duplicated rules
+    lambda k, rs: "//   " + k + ("   " + "  ,  ".join(rs) if rs else "   "),       # runs of blanks
+    lambda k, rs: "# " + k + "\t" + ", ".join(rs or ["x"]),                        # a tab instead of the blank: not a directive
+    lambda k, rs: "# " + k.upper() + (" " + ", ".join(rs) if rs else ""),          # upper case: not a directive
+    lambda k, rs: "# " + k + "x" + (" " + ", ".join(rs) if rs else ""),            # keyword with a suffix: not a directive
+    lambda k, rs: "# " + k + " " + ", ".join((rs or []) + ["no/such-rule", "another.unknown_rule", "*", "--"]),
+    lambda k, rs: "/* " + k + (" " + ", ".join(rs) if rs else "") + "*/",          # terminator glued to the text
+    lambda k, rs: "# see " + k + " below",                                         # the keyword is not the first word
+    lambda k, rs: "# " + k + " " + ", ".join((rs or ["a/b"]) * 40),                # a very long list
+]
+WORD = {"next-line": "falco-ignore-next-line", "this-line": "falco-ignore", "start": "falco-ignore-start", "end": "falco-ignore-end"}
+
+
 def slots_of(prog):
     """every (node, where) a directive comment can be put"""
     lead = [n for n in prog.nodes() if n.kind != "block"]
-    trail = [n for n in prog.nodes() if n.kind == "simple"]
+    trail = [n for n in prog.nodes() if n.kind in ("simple", "decl")]
     infix = [n for n in prog.nodes() if n.kind == "block"]
     return lead, trail, infix
 
@@ -171,12 +203,17 @@ def covered_by(prog, d):
         for k in range(d["i"], d["j"]):
             ids |= prog.subtree_ids(d["lst"][k])
         return ids
+    if d["form"] == "open":
+        ids = set()
+        for s in prog.subs[d["i"]:]:
+            ids |= prog.subtree_ids(s)
+        return ids
     return set()     # dead placement
 
 
 def mk_directive(rng, prog, fired_rules, form=None, marker=None, with_rules=None):
     lead, trail, infix = slots_of(prog)
-    form = form or rng.choice(["next-line"] * 4 + ["this-line"] * 3 + ["range"] * 4 + ["dead"] + ["slot"] * 4)
+    form = form or rng.choice(["next-line"] * 4 + ["this-line"] * 3 + ["range"] * 4 + ["dead"] + ["slot"] * 4 + ["hostile"] * 2 + ["open"])
     marker = marker or rng.choice(G.MARKERS)
     if with_rules is None:
         with_rules = rng.random() < 0.5
@@ -205,6 +242,28 @@ def mk_directive(rng, prog, fired_rules, form=None, marker=None, with_rules=None
                                     "front": rng.random() < 0.5})
         else:
             d["placements"].append({"node": owner, "where": "infix", "text": G.comment(m2, "end", rules, rng)})
+    elif form == "hostile":
+        # odd spellings of a next-line / trailing directive; what they mean is decided by py_parse
+        kind = rng.choice(["next-line", "this-line"])
+        text = rng.choice(HOSTILE)(WORD[kind], rules)
+        meaning = py_parse(text)
+        n = rng.choice(lead if kind == "next-line" else trail)
+        if kind == "this-line" and not text.startswith("/*") and n.trail:
+            n = rng.choice(lead)
+            kind = "next-line"
+            text = rng.choice(HOSTILE)(WORD[kind], rules)
+            meaning = py_parse(text)
+        d.update(node=n, hostile=text, marker="hostile")
+        d["placements"].append({"node": n, "where": "lead" if kind == "next-line" else "trail", "text": text})
+        if meaning is not None and meaning[0] == kind:
+            d["form"], d["rules"] = kind, meaning[1]
+        else:
+            d["form"], d["dead"] = "dead", "hostile"
+    elif form == "open":
+        # falco-ignore-start before a root declaration and no end: the rest of the file
+        i = rng.randrange(len(prog.subs))
+        d.update(form="open", i=i, node=prog.subs[i])
+        d["placements"].append({"node": prog.subs[i], "where": "lead", "text": G.comment(marker, "start", rules, rng)})
     elif form == "slot":
         # one of the other comment placeholders of docs/parser.md; what it covers follows from where the parser attaches it
         cands = [(n, sl) for n in prog.nodes() for sl in n.slots()]
@@ -253,9 +312,36 @@ def snippet_program(rng, bld, k):
     return prog, prog.snippet_req, plain
 
 
+def include_program(rng, bld, k):
+    """sub vcl_recv with an `include "m<k>";` statement somewhere in its body (or in a nested if block): the module's
+    statements take the place of the include statement in the walk.  Returns (program, request suffix, plain source)."""
+    n_main = rng.randint(1, 4)
+    main = [bld.simple() for _ in range(n_main)]
+    mod = []
+    for i in range(rng.randint(1, 3)):
+        st = bld.simple()
+        st.file = "mod::m%d" % k
+        if rng.random() < 0.3:
+            st.fixed_lead = ["# a comment of the module"]
+        mod.append(st)
+    at = rng.randrange(n_main + 1)
+    if rng.random() < 0.3:
+        body = main[:at] + [bld.if_(mod + [bld.simple()])] + main[at:]
+    else:
+        body = main[:at] + mod + main[at:]
+    tail = G.Node("sub", "vcl_deliver", [bld.block([bld.simple(0)])])
+    prog = G.Program([G.Node("sub", "vcl_recv", [bld.block(body)]), tail]).number()
+    prog.macro_stmt = None
+    prog.clear()
+    plain = prog.render()
+    return prog, prog.snippet_req, plain
+
+
 def snippet_directives(rng, prog, fired, j):
     """directives above / below / around the macro line (systematic for the first cases), then anywhere"""
     m = prog.macro_stmt
+    if m is None:
+        return [mk_directive(rng, prog, fired, form=rng.choice(["next-line", "this-line", "range", "range"])) for _ in range(rng.choice([1, 1, 2]))]
     named = [r for r in fired if r != "-"]
     rules = [rng.choice(named)] if named and j % 2 else []
     mk = G.MARKERS[j % 3]
@@ -299,6 +385,8 @@ def describe(d):
         s += "@%s[%d:%d]" % (d["owner"].kind if d["owner"] else "program", d["i"], d["j"])
     if d.get("dead"):
         s += ":" + d["dead"]
+    if d.get("hostile"):
+        s += ":" + repr(d["hostile"][:60])
     if d["form"] == "slot":
         s += ":" + d["kind"] + "@" + d["slot"]
     return s
@@ -327,12 +415,13 @@ def overlap_facts(prog, ds):
     other has ended: nested or interleaved) AND whose rule lists are not disjoint (a bare pair names every rule).  The
     range set is one set: the end of the inner pair removes its rules from it, also for the outer pair.
     Call after prog.render().  Returns the facts for ctx.violation, or None."""
-    rs = [d for d in ds if d["form"] == "range"]
+    rs = [d for d in ds if d["form"] in ("range", "open")]
     if len(rs) < 2:
         return None
     a, b = rs[0], rs[1]
     order = prog.comment_order()
-    (sa, ea), (sb, eb) = [tuple(order[id(p["obj"])] for p in d["placements"]) for d in (a, b)]
+    # a start without end runs to the end of the file
+    (sa, ea), (sb, eb) = [(tuple(order[id(p["obj"])] for p in d["placements"]) + (10 ** 9,))[:2] for d in (a, b)]
     if ea < sb or eb < sa:
         return None                      # one pair is closed before the other opens
     if a["rules"] and b["rules"] and not (set(a["rules"]) & set(b["rules"])):
@@ -341,16 +430,23 @@ def overlap_facts(prog, ds):
 
 
 def corpus_cases():
+    """corpus/C12/*.vcl: first line `# expect: rule@line ...` = what the property demands; an optional second line
+    `# known: {json}` marks an input of a recorded known finding (a mismatch is then reported as KNOWN-FINDING)"""
     d = os.path.join(V.VERIF, "corpus", "C12")
     out = []
     if os.path.isdir(d):
         for fn in sorted(os.listdir(d)):
             if fn.endswith(".vcl"):
                 src = open(os.path.join(d, fn)).read()
-                first = src.split("\n", 1)[0]
+                lines = src.split("\n")
+                first = lines[0]
                 if first.startswith("# expect:"):
                     exp = sorted((it.rpartition("@")[0], int(it.rpartition("@")[2])) for it in first[len("# expect:"):].split())
-                    out.append((fn, src, exp))
+                    facts = None
+                    if len(lines) > 1 and lines[1].startswith("# known:"):
+                        import json as _json
+                        facts = _json.loads(lines[1][len("# known:"):])
+                    out.append((fn, src, exp, facts))
     return out
 
 
@@ -377,13 +473,13 @@ def run(ctx):
 
     # ---------------- corpus (minimised inputs of repaired defects): recorded expectation
     cc = corpus_cases()
-    reps = V.run_batch(IMPL, [s.encode().hex() for _, s, _ in cc], hang_s=10)
+    reps = V.run_batch(IMPL, [s.encode().hex() for _, s, _, _ in cc], hang_s=10)
     corpus_ok = 0
-    for (fn, src, exp), rep in zip(cc, reps):
+    for (fn, src, exp, facts), rep in zip(cc, reps):
         got = parse_reply(rep)
         if got is None or sorted(got) != exp:
-            viol.append((0, "corpus/C12/%s: the linter reports %s, expected %s" % (fn, rep, exp),
-                         {"file": fn, "source": src, "reply": rep, "expected": exp}, None))
+            (known_v if facts else viol).append((0, "corpus/C12/%s: the linter reports %s, the property demands %s" % (fn, rep, exp),
+                                                 {"file": fn, "source": src, "reply": rep, "expected": exp}, facts))
         else:
             corpus_ok += 1
 
@@ -642,6 +738,7 @@ def run(ctx):
     # programs whose statement stream the linter changes: managed snippets embedded at the #FASTLY macro
     snippet_n = 0
     sps = [sp for sp in (snippet_program(rng, bld, k) for k in range(n_snippet)) if sp is not None]
+    sps += [include_program(rng, bld, k) for k in range(n_snippet)]
     sbase = V.run_batch(IMPL, [plain.encode().hex() + req for _, req, plain in sps], hang_s=10)
     for k, ((prog, req, plain), brep) in enumerate(zip(sps, sbase)):
         errs = parse_reply(brep)
